@@ -142,7 +142,7 @@ def run_check(prop, lens, args, seed, known, t0):
             agg["foreign"][inv] = agg["foreign"].get(inv, 0) + 1
         if res["herr"]:
             herrs.append(f"run {idx}: {json.dumps(res['herr'][0], default=repr)[:1500]}")
-        if len(samples) < 3 and res["events"]:
+        if len(samples) < 3 and res["events"] and "scenario" in res:
             samples.append({"run": idx, "history": describe(res["scenario"]),
                             "events_delivered": res["events"], "trace_events": res["steps"]})
         if res["viol"] and not args.keep_going:
@@ -151,11 +151,11 @@ def run_check(prop, lens, args, seed, known, t0):
         if res["viol"]:
             first_bad[idx] = res
 
-    tasks = [{"seed": world.mix(seed, prop, tier, i)} for i in range(runs)]
+    tasks = [{"seed": world.mix(seed, prop, tier, i), "want_scenario": i < 12} for i in range(runs)]
     if args.only_run is not None:
         tasks = [{"seed": world.mix(seed, prop, tier, args.only_run)}]
     cap = getattr(lens, "WALL_CAP", {}).get(tier) if hasattr(lens, "WALL_CAP") else None
-    results = world.run_many(cli._run_task, tasks, jobs=jobs, timeout=60, on_result=on_result, wall_cap=cap)
+    world.run_many(cli._run_task, tasks, jobs=jobs, timeout=60, on_result=on_result, wall_cap=cap, keep=False)
     for idx in sorted(first_bad):
         res = first_bad[idx]
         v = res["viol"][0]
